@@ -180,11 +180,30 @@ class CustomErr(Exception):
     pass
 
 
+def _slow_rebuild(x):
+    import time as _t
+    _t.sleep(0.4)
+    return SlowValue(x)
+
+
+class SlowValue:
+    """Takes the receiving side 0.4 s to recreate (while that thread is busy with it other threads unpickle other messages)."""
+    def __init__(self, x):
+        self.x = x
+
+    def __reduce__(self):
+        return (_slow_rebuild, (self.x,))
+
+    def __eq__(self, other):
+        return type(other) is SlowValue and other.x == self.x
+
+
 VALUES = {
     'none': lambda: None, 'zero': lambda: 0, 'empty-str': lambda: '', 'empty-list': lambda: [], 'false': lambda: False,
     'nested': lambda: {'a': [1, (2, 3), {'b': {4}}], 'c': None}, 'obj': lambda: Point(1, [2]),
     'b0': lambda: b'', 'b1': lambda: b'z', 'b64k': lambda: b'k' * 65536, 'b64k1': lambda: b'k' * 65537,
     'many': lambda: [{'i': i} for i in range(120000)],       # takes the receiving side a while to recreate
+    'slowobj': lambda: [SlowValue(3), 'tail'],
     'b208k1': lambda: b'q' * 212993, 'b1m': lambda: b'm' * (1 << 20), 'b4m': lambda: b'M' * (4 << 20),
 }
 EXCS = {
